@@ -1,12 +1,14 @@
 // which families decide which property, and with how many runs per tier
 #include "run.hpp"
 
-struct CheckPart { std::string family; int quick; int thorough; };
-struct CheckDef { std::string prop; std::string level; std::vector<CheckPart> parts; std::string rule; };
 
 std::vector<CheckDef>& check_table()
 {
 	static std::vector<CheckDef> t = {
+		{ "C01", "exploration", { { "recover", 400, 12000 } },
+		  "seeded configuration + sync history to a clean synced state, then a seeded damage set with <= N damaged blocks in every stripe (whole devices: any <= N of data disks and parity levels; "
+		  "or per-stripe patterns: files deleted/truncated/extended, blocks flipped with the stamp restored, parity blocks damaged, links/dirs removed, content copies lost), then fix + check. "
+		  "Non-trivial = at least one block of a used stripe was damaged; distinct = distinct (config, op sequence) hashes" },
 		{ "C06", "exploration", { { "parity-inv", 300, 10000 } },
 		  "seeded histories of file-system changes interleaved with sync variants/scrub/fix/touch/rehash/check under seeded schedules; the independent parity oracle runs after every command. "
 		  "A run is non-trivial when at least one fully synced stripe was compared with parity and >= 3 commands ran; distinct = distinct (config, op sequence) hashes" },
